@@ -8,9 +8,9 @@ package main
 import (
 	"bytes"
 	"encoding/binary"
+	"errors"
 	"fmt"
 	"net"
-	"sort"
 	"sync"
 	"time"
 
@@ -103,15 +103,15 @@ type sizer struct {
 func (s *sizer) next() int {
 	r := s.g.Intn(100)
 	switch {
-	case r < 22:
+	case r < 25:
 		return 8 + s.g.Intn(4)
-	case r < 27 && s.large > 0 && s.max > 200:
+	case r < 29 && s.large > 0 && s.max >= 200:
 		s.large--
 		if s.g.Chance(0.5) {
 			return bufSize
 		}
 		return 1400 + s.g.Intn(101)
-	case r < 62:
+	case r < 78:
 		return 12 + s.g.Intn(53)
 	default:
 		return 12 + s.g.Intn(s.max-11)
@@ -160,7 +160,11 @@ func newWorld(bkIP string, nusers int) (*world, error) {
 		for {
 			n, from, err := w.backend.ReadFromUDP(buf)
 			if err != nil {
-				return
+				if errors.Is(err, net.ErrClosed) {
+					return
+				}
+				time.Sleep(time.Millisecond)
+				continue
 			}
 			d := append([]byte(nil), buf[:n]...)
 			probe, _, idx := hdr(d)
@@ -189,7 +193,11 @@ func newWorld(bkIP string, nusers int) (*world, error) {
 			for {
 				n, _, err := c.ReadFromUDP(buf)
 				if err != nil {
-					return
+					if errors.Is(err, net.ErrClosed) {
+						return
+					}
+					time.Sleep(time.Millisecond)
+					continue
 				}
 				d := append([]byte(nil), buf[:n]...)
 				probe, _, idx := hdr(xf(d[:min(n, 8)]))
@@ -540,10 +548,9 @@ func (r *rig) close() {
 
 func runFwd(cfg *hx.RunCfg, g *hx.Gen, dist map[string]int, fails *[]failure) []string {
 	nscen := 6
-	sz := &sizer{g: g, large: 6, max: 200}
+	sz := &sizer{g: g, max: 200}
 	if cfg.Tier == "thorough" {
 		nscen = 30
-		sz.large = 30
 	}
 	var cases []string
 	for sc := 0; sc < nscen; sc++ {
@@ -562,6 +569,9 @@ func fwdScenario(g *hx.Gen, sz *sizer, sc int, dist map[string]int) (string, []f
 	nusers := 2 + g.Intn(4)
 	nbursts := 4 + g.Intn(5)
 	perm := g.R.Perm(nusers)
+	if sc%3 == 1 { // the large datagrams are spread over the scenarios (scenario 0 has a fixed long/short burst)
+		sz.large = 1
+	}
 	w, err := newWorld(backendIP, nusers)
 	if err != nil {
 		return "", []finding{{"fwd:setup", err.Error()}}
@@ -725,14 +735,15 @@ func idleScenario(g *hx.Gen, dist map[string]int, report func(key, what, cse str
 	line := fmt.Sprintf("CIdle %d %s %s %s %d %s %s", bufSize, hx.List(w.userAddrs()), coqBursts(b1), coqBursts(b2), late, ov.backend, ov.urecv)
 
 	// new sockets for users 0 and 1?
-	reused, notRecreated := false, false
+	reused, notRecreated, sameUser := false, false, false
 	w.mu.Lock()
 	for _, rec := range w.bk {
-		_, _, idx := hdr(rec.data)
+		_, u, idx := hdr(rec.data)
 		if idx >= n1 {
 			for _, o := range old {
 				if o.addr.Port == rec.addr.Port {
 					reused = true
+					sameUser = sameUser || o.user == u
 				}
 			}
 		}
@@ -747,12 +758,16 @@ func idleScenario(g *hx.Gen, dist map[string]int, report func(key, what, cse str
 	for k := range before {
 		lateSeen = lateSeen || after[k] > before[k]
 	}
-	if reused {
-		// either the OS handed an old port number to a new socket or the old socket is still in
-		// use; the late datagram may then legitimately reach the new socket
+	osReuse := reused && !sameUser
+	if osReuse {
+		// the OS handed an old port number to a new socket (of another user): the late datagram
+		// may then legitimately reach that socket
 		hx.CountBy(dist, "idle os-port-reuse")
 	} else if lateSeen {
 		fs = append(fs, finding{"idle:late-reply-delivered", "a datagram the backend sent to a local socket that had been idle for more than 30 s was delivered to a user"})
+	}
+	if sameUser {
+		fs = append(fs, finding{"idle:socket-not-closed", "after more than 30 s without traffic a user's datagrams still left from the local socket (same source port) that user had before"})
 	}
 	if notRecreated {
 		fs = append(fs, finding{"idle:socket-not-recreated", "after the idle timeout the datagrams of a user who had a local socket before did not get through within 3 s"})
@@ -761,7 +776,7 @@ func idleScenario(g *hx.Gen, dist map[string]int, report func(key, what, cse str
 		fs = append(fs, finding{"idle:lost", "a datagram of the first group did not get through within 3 s"})
 	}
 	for _, f := range w.monitor("idle", sends, true) {
-		if f.key == "idle:reply-duplicate" && lateSeen && !reused {
+		if (f.key == "idle:reply-duplicate" || f.key == "idle:reorder") && lateSeen && !osReuse {
 			continue // that is the late datagram, already reported
 		}
 		if f.key == "idle:lost" && notRecreated {
@@ -773,6 +788,5 @@ func idleScenario(g *hx.Gen, dist map[string]int, report func(key, what, cse str
 		report(f.key, f.what, clip(line, 1500))
 	}
 	_ = ok2
-	_ = sort.Ints
 	return line
 }
